@@ -1,5 +1,5 @@
 """C15 — all ways of building a class from symbols yield the same model."""
-import json, struct, typing, warnings
+import json, random, struct, typing, warnings
 
 import numpy as np
 
@@ -174,7 +174,7 @@ def run_case(ctx, rep, case, batch):
     text, symbols = symbols_of(case, prog)
     case['text'] = text
     rep.dist['shape:' + case['shape'] + ('+stripped-' + str(case['strip']) if case['strip'] and any(s.type == P.Type.ENDOGENOUS for s in symbols) else '')] += 1
-    rng = ctx.sub_rng('opts', case['data_seed'])
+    rng = random.Random(case['data_seed'])   # drawn from ctx.sub_rng by gen_case: replays need no seed
     import props.c03 as c03
     latin = c03.latin_options()
     opt_sets = [OPTS_DEFAULT] + rng.sample(latin, 2 if ctx.tier == 'quick' else 5)
